@@ -253,6 +253,67 @@ fn check_names(st: &mut Stats, line: &Value) -> Vec<String> {
     d
 }
 
+/// Sizes beyond what TLC enumerates: the arena invariants (GetExact, LenAgrees, IterOnce) are
+/// size independent, so they are also demanded of ontologies whose term count crosses the
+/// u8 / u16 / SmallVec boundaries (300 and 70,000 terms, dense and strided ids).
+pub fn big_cases(st: &mut Stats) -> Vec<String> {
+    let mut d = vec![];
+    for (n, stride, offset) in [(300u32, 1u32, 1u32), (70_000, 1, 0), (70_000, 142, 57)] {
+        st.cases += 1;
+        st.nontrivial += 1;
+        let r = catch(|| {
+            let mut b = Builder::new();
+            for i in 0..n {
+                b.new_term(&format!("B{}", i), offset + i * stride);
+            }
+            b.terms_complete().connect_all_terms().calculate_information_content().map(|x| x.build_minimal())
+        });
+        let ont = match r {
+            Ok(Ok(o)) => o,
+            Ok(Err(e)) => {
+                d.push(format!("ontology with {n} terms cannot be built: {e}"));
+                continue;
+            }
+            Err(e) => {
+                d.push(format!("ontology with {n} terms: panic {e}"));
+                continue;
+            }
+        };
+        if ont.len() != n as usize {
+            d.push(format!("len() = {} for an ontology of {n} terms", ont.len()));
+        }
+        match catch(|| ont.iter().map(|t| t.id().as_u32()).collect::<BTreeSet<u32>>()) {
+            Ok(s) => {
+                if s.len() != n as usize {
+                    d.push(format!("iter() yields {} distinct terms of {n}", s.len()));
+                }
+            }
+            Err(e) => d.push(format!("iter() over {n} terms panicked: {e}")),
+        }
+        for i in 0..n {
+            let id = offset + i * stride;
+            st.evaluations += 1;
+            match ont.hpo(id) {
+                Some(t) => {
+                    if t.id().as_u32() != id || t.name() != format!("B{}", i) {
+                        d.push(format!("in an ontology of {n} terms hpo({id}) returns term {} named {:?}, it was added as B{i}", t.id(), t.name()));
+                        break;
+                    }
+                }
+                None => {
+                    d.push(format!("in an ontology of {n} terms hpo({id}) returns None although the term was added (insertion #{})", i + 1));
+                    break;
+                }
+            }
+            if stride > 1 && ont.hpo(id + 1).is_some() {
+                d.push(format!("hpo({}) returns a term that was never added", id + 1));
+                break;
+            }
+        }
+    }
+    d
+}
+
 pub fn replay_line(st: &mut Stats, prop: &str, idx: usize, line: &Value, sweep_every: u64, full_u32: bool) {
     st.cases += 1;
     let arena = line["kind"].as_str() == Some("arena");
@@ -284,12 +345,26 @@ pub fn run(args: &Args) {
     for (i, l) in lines.iter().enumerate() {
         replay_line(&mut st, &prop, i, l, sweep_every, full);
     }
+    if shard.0 == 0 {
+        let mut d = big_cases(&mut st);
+        if !d.is_empty() {
+            d.truncate(12);
+            st.violations.push(Violation { property: prop.clone(), what: d[0].clone(), replay: json!({"cmd": "replay-lookup", "property": prop, "big": true, "diffs": d}) });
+        }
+    }
     finish(st, args.req("out"), args.req("replay-dir"), json!({"lines": lines.len()}));
 }
 
 pub fn replay_one(v: &Value) -> bool {
     silence_panics();
     let mut st = Stats::default();
+    if v.get("big").is_some() {
+        let d = big_cases(&mut st);
+        for l in &d {
+            println!("reproduced: {l}");
+        }
+        return !d.is_empty();
+    }
     replay_line(&mut st, v["property"].as_str().unwrap_or("C10"), 0, &v["line"], 1, false);
     for x in &st.violations {
         println!("reproduced: {}", x.what);
